@@ -1376,6 +1376,39 @@ def check_batch_keys_and_aliases(repo, chk):
     chk.instance("L5", "fixture: [{}] * n filled by index is flagged, a comprehension of fresh dicts is not (%d shared-element lists in the repository)" % n_lists, nontrivial=False)
 
 
+def check_batch_sum(repo, chk):
+    """batch_sum adds up per-batch results without writing into them (the first result may be a view of the caller's
+    data: numpy `+=` would accumulate into the sample itself)"""
+    import numpy as np
+    import sympy as sp
+
+    from ..sym import PyFunc, Translator, Unmodelled
+    chk.rule("K-acc", "batch_sum(function, data) interpreted with numpy in-place semantics for `+=` on three batches whose per-batch results are the batches' own arrays: the result is their sum and the batches are unchanged afterwards")
+    fn = repo.fn_opt("tf_pwa/data.py::batch_sum")
+    if fn is None:
+        raise AnalysisError("anchor vanished: tf_pwa/data.py::batch_sum")
+    batches = [np.array([sp.Symbol("w%d%d" % (b, k)) for k in range(2)], dtype=object) for b in range(3)]
+    orig = [b.copy() for b in batches]
+    hooks = {"numpy_inplace": True}
+    for nm in ("data_split", "split_generator"):
+        g = repo.fn_opt("tf_pwa/data.py::" + nm)
+        if g is not None:
+            hooks[g.key] = lambda tr_, a_, k_, n_: list(batches)
+    tr = Translator(repo, hooks=hooks, max_depth=2)
+    try:
+        out = tr.call_fn(fn, [PyFunc(lambda d: d), "DATA"], {})
+    except Unmodelled as e:
+        raise AnalysisError("batch_sum cannot be interpreted: %s" % e)
+    want = orig[0] + orig[1] + orig[2]
+    ok_val = isinstance(out, np.ndarray) and out.shape == want.shape and all(sp.simplify(a - b) == 0 for a, b in zip(out.reshape(-1), want.reshape(-1)))
+    touched = [k for k, (b, o) in enumerate(zip(batches, orig)) if not all(sp.simplify(x - y) == 0 for x, y in zip(b.reshape(-1), o.reshape(-1)))]
+    chk.oblige("K-acc", "batch_sum over 3 batches: value = sum of the per-batch results: %s; batches modified: %s" % (ok_val, touched or "none"), ok_val and not touched)
+    if touched:
+        chk.violation("K-acc", fn.key, "write-through", "after batch_sum the per-batch result of batch %s has changed: the running sum is accumulated in place into the first result, which can be a view of the caller's data (weights / momenta of the first batch are overwritten)" % touched, file="tf_pwa/data.py", line=fn.lineno)
+    elif not ok_val:
+        chk.violation("K-acc", fn.key, "value", "batch_sum over three batches returns %s, expected %s" % (out, want), file="tf_pwa/data.py", line=fn.lineno)
+
+
 def run(repo, chk, tier):
     from ..cacheown import check_persistent_state
 
@@ -1398,6 +1431,7 @@ def run(repo, chk, tier):
     check_layout(repo, chk)
     check_cache_and_lazy(repo, chk)
     check_batch_keys_and_aliases(repo, chk)
+    check_batch_sum(repo, chk)
     from .c18_copy import check_copy_isolation
 
     check_copy_isolation(repo, chk)
